@@ -490,6 +490,11 @@ impl SubrSpace {
         SubrSpace { count, used: BTreeMap::new(), free: cand }
     }
 
+    /// `count` slots of which exactly `slots` (in pop order: last first) may hold real subroutines.
+    pub fn with_candidates(count: usize, slots: Vec<usize>) -> SubrSpace {
+        SubrSpace { count, used: BTreeMap::new(), free: slots.into_iter().filter(|s| *s < count).collect() }
+    }
+
     pub fn bias(&self) -> i64 {
         subr_bias(self.count)
     }
@@ -631,31 +636,31 @@ fn factor_range(
             (false, false) => break,
         };
         flat(&mut out, pos, s);
+        pos = s;
         let mut body = factor_range(toks, depths, s, e, level + 1, local, global, cfg, rng, stats);
+        let space = if use_global { &mut *global } else { &mut *local };
+        let count = space.count;
+        let call = if space.has_free() { space.free.last().and_then(|&idx| call_tok(idx, count, use_global, rng)) } else { None };
+        let (call, enc) = match call {
+            Some(c) => c,
+            None => {
+                // the nested levels used up the free slots: keep the range inline
+                out.extend(body);
+                pos = e;
+                continue;
+            }
+        };
         let ends_with_endchar = matches!(toks[e - 1].effect, Effect::End);
         if ends_with_endchar {
             stats.endchar_in_subr = true;
         } else if cfg.emit_return {
             body.push(Tok::op(op::RETURN));
         }
-        let space = if use_global { &mut *global } else { &mut *local };
-        let count = space.count;
-        let idx = match space.alloc(body) {
-            Some(i) => i,
-            None => break,
-        };
-        match call_tok(idx, count, use_global, rng) {
-            Some((t, enc)) => {
-                out.push(t);
-                stats.operand_encs.push(enc);
-            }
-            None => {
-                // cannot happen for count <= 65536; keep the program well formed anyway
-                let body = space.used.remove(&idx).unwrap_or_default();
-                let keep = if !ends_with_endchar && cfg.emit_return { body.len().saturating_sub(1) } else { body.len() };
-                out.extend_from_slice(&body[..keep]);
-            }
+        if space.alloc(body).is_none() {
+            break;
         }
+        out.push(call);
+        stats.operand_encs.push(enc);
         if use_global {
             stats.global_calls += 1;
         } else {
